@@ -374,12 +374,15 @@ func (d *Def) getMethodNameAndSetIsStatic(
 				ctx.IsDefineStatic,
 			)
 
-		if objectT.ID == "" {
-			objectT.ID = base.GenId()
-		}
+		// def x.y on a receiver that is not a known variable: define it in the current scope
+		if objectT != nil {
+			if objectT.ID == "" {
+				objectT.ID = base.GenId()
+			}
 
-		ctx.SetClass(objectT.ID)
-		ctx.SetFrame(objectT.GetFrame())
+			ctx.SetClass(objectT.ID)
+			ctx.SetFrame(objectT.GetFrame())
+		}
 
 		t, err = p.ReadTwice()
 		if err != nil {
